@@ -32,11 +32,14 @@ RULE = ("E4: outline template with the 6 placeholder positions {name, step name,
         "<row.index> <row.id> appended to outline name, step name and tags (slot 'special'), cell values {x, '', ue-umlaut, b (the OTHER column's name as plain "
         "text), 'x y'}, annotation schema {default, '{name} [{row.id}]', '{name}'}. Decorations of one step are COMBINED (slot 'combo': doc-string then table on the same step, table "
         "then doc-string, EMPTY doc-string + table; crossed with the DOC / THEAD / TCELL mask bits = placeholders in "
-        "doc only, table heading / cell only, both) and a feature BACKGROUND step with doc-string + table (slot "
-        "'bg': parametrised step name -> rendered per row; plain name -> untouched or rendered accepted). "
+        "doc only, table heading / cell only, both) and BACKGROUND steps with doc-string + table (slot "
+        "'bg': feature background for an outline under the feature; and the outline INSIDE A RULE x feature "
+        "background {absent, plain, parametrised name} x rule background {absent, plain, parametrised} = all 9; "
+        "inherited order feature steps, rule steps, own steps; a step with a parametrised name must be rendered per "
+        "row, a step with a plain name may be untouched or rendered). "
         "Deviation = a combo, a background, a non-'x' cell, a "
         "(b,a) block, a tagged block, a templated block name, the special slot, a non-default schema. quick: all 64 masks x all shapes x <=1 deviation (block-name / special-placeholder / "
-        "exotic-block-tag deviations on the 8 masks {none, each single position, all} only), full mask "
+        "exotic-block-tag / rule-background deviations on the 8 masks {none, each single position, all} only), full mask "
         "x <=2 deviations; thorough: all masks x <=2, full mask x <=3, and full mask x ALL value/order/tag/schema "
         "combinations on shapes with <=2 rows. Every outline is parsed from rendered text AND built through the model "
         "API. E2: histories over a BASE alphabet {read .scenarios, run, add_row(block, 2 value patterns, list "
@@ -130,7 +133,8 @@ def template(mask, cols="ab", special=0, combo=0, bg=0):
 def _decorate(tmpl, mask, combo, bg):
     """decorations of ONE step combined: combo 1 = doc-string then table on the same step, 2 = table then doc-string
     (order in the document), 3 = EMPTY doc-string + table; bg 1 = feature background whose step has a parametrised
-    name + doc-string + table, bg 2 = background step with a plain name and placeholders in doc-string/table only"""
+    name + doc-string + table, bg 2 = background step with a plain name and placeholders in doc-string/table only,
+    bg 3..11 = the outline inside a Rule x {feature background absent/plain/parametrised} x {rule background ...}"""
     steps = tmpl["steps"]
     doc, table = steps[1][2], steps[2][3]
     tmpl["table_first"] = ()
@@ -142,9 +146,18 @@ def _decorate(tmpl, mask, combo, bg):
         steps[2] = (steps[2][0], steps[2][1], u"", table)
     if bg:
         on = lambda bit, a, b: a if mask & bit else b
-        tmpl["bg"] = [(u"Given", u"a background <a>-<b>" if bg == 1 else u"a background plain",
-                       on(DOC, u"bg <b>\n  <a> <zz>", u"bg b\n  a zz"),
-                       (on(THEAD, [u"k<a>", u"j"], [u"ka", u"j"]), [on(TCELL, [u"<b>", u"<a>b"], [u"b", u"ab"])]))]
+
+        def bgstep(level, kind):        # kind 1 = plain step name, 2 = parametrised step name
+            return (u"Given", (u"a background %s <a>-<b>" if kind == 2 else u"a background %s plain") % level,
+                    on(DOC, u"bg %s <b>\n  <a> <zz>" % level, u"bg %s b\n  a zz" % level),
+                    (on(THEAD, [u"k<a>", u"j"], [u"ka", u"j"]), [on(TCELL, [u"<b>", u"<a>b"], [u"b", u"ab"])]))
+        if bg in (1, 2):                # outline directly under the feature: bg 1 = parametrised, 2 = plain
+            tmpl["bg"] = [bgstep(u"feature", 2 if bg == 1 else 1)]
+        else:                           # outline INSIDE A RULE x feature background x rule background (all 9)
+            f, r = divmod(bg - 3, 3)    # 0 = absent, 1 = plain name, 2 = parametrised name
+            tmpl["in_rule"] = True
+            tmpl["bg"] = [bgstep(u"feature", f)] if f else []
+            tmpl["rbg"] = [bgstep(u"rule", r)] if r else []
     return tmpl
 
 
@@ -198,6 +211,12 @@ def render(tmpl, blocks):
         emit(u"  Background:")
         emit_steps(tmpl["bg"])
         emit(u"")
+    if tmpl.get("in_rule"):
+        emit(u"  Rule: R")
+        if tmpl.get("rbg"):
+            emit(u"  Background: of the rule")
+            emit_steps(tmpl["rbg"])
+            emit(u"")
     emit(u"  " + u" ".join(u"@" + t for t in tmpl["tags"]))
     lines["outline"] = emit(u"  Scenario Outline: " + tmpl["name"])
     emit_steps(tmpl["steps"], tmpl.get("table_first", ()))
@@ -263,19 +282,21 @@ def ref_expand(tmpl, blocks, schema):
             # background steps of the feature: when a background step NAME is parametrised the builder renders the
             # background per row (every placeholder of the row, everywhere); otherwise the statement is silent and
             # both the untouched and the rendered background are accepted
-            bg_t = tmpl.get("bg") or []
-            bg_r = []
+            # inherited order: feature-background steps, then rule-background steps, then the own steps
+            bg_t = list(tmpl.get("bg") or []) + list(tmpl.get("rbg") or [])
+            bg_want = []
             for kw, sname, text, table in bg_t:
                 tb = None
                 if table is not None:
                     tb = ([subst(h, row) for h in table[0]], [[subst(c, row) for c in r] for r in table[1]])
-                bg_r.append((kw, subst(sname, rowsp), None if text is None else subst(text, row), tb))
-            alts = [bg_r]
-            if not any(_PH.search(st[1]) for st in bg_t):
-                alts.append([(kw, n, tx, None if tb is None else (list(tb[0]), [list(r) for r in tb[1]]))
-                             for kw, n, tx, tb in bg_t])
+                rendered = (kw, subst(sname, rowsp), None if text is None else subst(text, row), tb)
+                allowed = [rendered]
+                if not _PH.search(sname):       # plain step name: silent -> untouched is accepted as well
+                    allowed.append((kw, sname, text,
+                                    None if table is None else (list(table[0]), [list(r) for r in table[1]])))
+                bg_want.append(allowed)
             out.append({"name": full, "tags": sorted(tags), "btags": list(b["tags"]), "steps": steps, "bi": bi,
-                        "ri": ri, "bg_alts": alts})
+                        "ri": ri, "bg_want": bg_want})
     return out
 
 
@@ -303,7 +324,10 @@ def snap_template(outline):
     for e in outline.examples:
         ex.append((u"%s" % e.name, [u"%s" % t for t in e.tags], list(e.table.headings),
                    [(list(r.cells), r.line) for r in e.table.rows]))
-    bg = snap_steps(outline.background.steps) if outline.background is not None else None
+    bg = None
+    if outline.background is not None:
+        inh = outline.background.inherited_background
+        bg = (snap_steps(outline.background.steps), snap_steps(inh.steps) if inh is not None else None)
     return (u"%s" % outline.name, [u"%s" % t for t in outline.tags], snap_steps(outline.steps), ex, outline.line, bg)
 
 
@@ -335,8 +359,13 @@ def first_field_diff(got, want):
                 return "step-table-heading", g[3][0], w[3][0]
             if g[3][1] != w[3][1]:
                 return "step-table-cell", g[3][1], w[3][1]
-    if "bg_alts" in want and got.get("bg", []) not in want["bg_alts"]:
-        return "background-step", got.get("bg"), want["bg_alts"][0]
+    if "bg_want" in want:
+        gb = got.get("bg", [])
+        if len(gb) != len(want["bg_want"]):
+            return "background-step-count", gb, [a[0] for a in want["bg_want"]]
+        for g, allowed in zip(gb, want["bg_want"]):
+            if g not in allowed:
+                return "background-step", g, allowed[0]
     return None
 
 
@@ -400,6 +429,8 @@ def parse_outline(tmpl, blocks):
     text, lines = render(tmpl, blocks)
     feature = parse_feature(text, filename=u"outline.feature")
     outline = feature.run_items[0]
+    if tmpl.get("in_rule"):
+        outline = outline.run_items[0]
     return feature, outline, lines, text
 
 
@@ -435,15 +466,29 @@ def build_outline(tmpl, blocks):
         line += 2 + len(b["rows"])
     outline = ScenarioOutline(u"api.feature", 4, u"Scenario Outline", tmpl["name"], tags=list(tmpl["tags"]),
                               steps=steps, examples=examples)
-    if tmpl.get("bg"):
-        from behave.model import Background
+    from behave.model import Background, Feature, Rule
+
+    def make_background(tsteps, bline):
         bsteps = []
-        for kw, name, text, table in tmpl["bg"]:
-            tb = Table(list(table[0]), line=3)
+        for kw, name, text, table in tsteps:
+            tb = Table(list(table[0]), line=bline + 2)
             for i, r in enumerate(table[1]):
-                tb.add_row(list(r), 4 + i)
-            bsteps.append(Step(u"api.feature", 2, kw, kw.lower(), name, text=Text(text, u"text/plain", 3), table=tb))
-        outline.background = Background(u"api.feature", 1, u"Background", u"", steps=bsteps)
+                tb.add_row(list(r), bline + 3 + i)
+            bsteps.append(Step(u"api.feature", bline + 1, kw, kw.lower(), name,
+                               text=Text(text, u"text/plain", bline + 2), table=tb))
+        return Background(u"api.feature", bline, u"Background", u"", steps=bsteps)
+    if tmpl.get("in_rule"):
+        # the containers wire the inheritance (Feature.add_rule / Rule.add_background / add_scenario), in the order
+        # the parser uses: feature background, rule, rule background, then the outline
+        feature = Feature(u"api.feature", 1, u"Feature", u"F",
+                          background=make_background(tmpl["bg"], 1) if tmpl.get("bg") else None)
+        rule = Rule(u"api.feature", 2, u"Rule", u"R", parent=feature)
+        feature.add_rule(rule)
+        if tmpl.get("rbg"):
+            rule.add_background(make_background(tmpl["rbg"], 2))
+        rule.add_scenario(outline)
+    elif tmpl.get("bg"):
+        outline.background = make_background(tmpl["bg"], 1)
     return outline, row_lines
 
 
@@ -504,7 +549,7 @@ def check_outline(case):
     bg = case[5] if len(case) > 5 else 0
     schema = SCHEMAS[schema_id]
     tmpl = template(mask, special=special, combo=combo, bg=bg)
-    nsteps = len(tmpl["steps"]) + len(tmpl.get("bg") or ())
+    nsteps = len(tmpl["steps"]) + len(tmpl.get("bg") or ()) + len(tmpl.get("rbg") or ())
     blocks = [block_model(b, i) for i, b in enumerate(blocks_spec)]
     want = ref_expand(tmpl, blocks, schema)
     per_mode = []
@@ -647,7 +692,7 @@ def slots(shape):
     out.append((("schema",), (1, 2)))
     out.append((("special",), (1,)))
     out.append((("combo",), (1, 2, 3)))
-    out.append((("bg",), (1, 2)))
+    out.append((("bg",), (1, 2) + tuple(range(3, 12))))
     return out
 
 
@@ -687,7 +732,8 @@ FEW_MASKS = (0, NAME, STEP, DOC, THEAD, TCELL, TAG, FULL)
 
 def _mask_independent(devs):
     """deviations whose effect does not depend on which template positions carry column placeholders"""
-    return any(slot[0] in ("bname", "special") or (slot[0] == "tagged" and val > 1) for slot, val in devs)
+    return any(slot[0] in ("bname", "special") or (slot[0] == "tagged" and val > 1) or (slot[0] == "bg" and val > 2)
+               for slot, val in devs)
 
 
 def outline_cases(masks, maxdev, mindev=0, few_masks_for_independent=False):
